@@ -36,6 +36,12 @@ EXTRA = [
     # SOFT_KEYWORD in a grammar that declares no soft keyword; a soft keyword only
     "start: SOFT_KEYWORD NAME NEWLINE | 'if' NUMBER NEWLINE\n",
     "start: !SOFT_KEYWORD NAME NEWLINE | [SOFT_KEYWORD] NUMBER NEWLINE\n",
+    # the (memo) flag on left-recursive rules (a leader, a non-leader) and on ordinary rules
+    "start: e NEWLINE\ne (memo): e '+' t | t\nt (memo): NUMBER\n",
+    "start: a NEWLINE\na (memo): b 'x' | 'p'\nb (memo): a 'y' | 'q'\n",
+    # an explicit action with text after UNREACHABLE, LOCATIONS inside a call
+    "start: a=NAME { foo(a, UNREACHABLE) } | NUMBER { UNREACHABLE }\n",
+    "start: a=NAME { mk(a, LOCATIONS) } | (NUMBER NUMBER) b=NAME { mk(LOCATIONS) }\n",
 ]
 
 
@@ -127,6 +133,7 @@ def run(chk: common.Check, tier: str):
         named = [x for x in named if "python.gram" not in x[0]]
     texts = [t for _, t in named] + EXTRA
     texts += list(gramgen.gen_grammars(r, gramgen.Knobs(), 60 if tier == "quick" else 600))
+    texts += list(gramgen.gen_grammars(r, gramgen.Knobs(left_rec=True, memo=True, typed=True, rules=(2, 4)), 20 if tier == "quick" else 300))
     texts += list(gramgen.gen_grammars(r, gramgen.Knobs(left_rec=True, invalid=True, rules=(2, 4)), 40 if tier == "quick" else 400))
     # ---- K-gen: the model's text equals the generator's text
     cases, descs, good = [], [], []
